@@ -973,15 +973,26 @@ static void gen_expr(Node *node) {
   case ND_CAS: {
     gen_expr(node->cas_addr);
     push();
+    Type *ty = node->cas_addr->ty->base;
+    int sz = ty->size;
+
+    // Floating-point values are compared and swapped as bit patterns,
+    // so they travel through the integer registers.
     gen_expr(node->cas_new);
+    if (ty->kind == TY_FLOAT)
+      println("  movd %%xmm0, %%eax");
+    else if (ty->kind == TY_DOUBLE)
+      println("  movq %%xmm0, %%rax");
     push();
     gen_expr(node->cas_old);
     println("  mov %%rax, %%r8");
-    load(node->cas_old->ty->base);
+    if (is_flonum(ty))
+      println("  mov (%%rax), %s", reg_ax(sz));
+    else
+      load(node->cas_old->ty->base);
     pop("%rdx"); // new
     pop("%rdi"); // addr
 
-    int sz = node->cas_addr->ty->base->size;
     println("  lock cmpxchg %s, (%%rdi)", reg_dx(sz));
     println("  sete %%cl");
     println("  je 1f");
